@@ -120,7 +120,8 @@ def run(ctx):
     # included, text with a code point split by a cut): FIN, opcode and payload of what is yielded equal what the independent
     # decoder extracts and reassembles
     frag_sessions, frag_meta = [], []
-    for data, op in ((b"", 1), (b"ab", 1), (b"abc", 2), ("h\u00e9\u20ac".encode(), 1), ("\U0001f600".encode(), 1)):
+    for data, op in ((b"", 1), (b"ab", 1), (b"abc", 2), ("h\u00e9\u20ac".encode(), 1), ("\U0001f600".encode(), 1),
+                     ("\ufeff".encode(), 1), ("\ufeffok".encode(), 1), ("\ufeffok".encode(), 2)):
         n = len(data)
         for k in (2, 3):
             for cuts in itertools.combinations_with_replacement(range(0, n + 1), k - 1):
